@@ -142,7 +142,16 @@ func runC15(c *Ctx) error {
 					cancel()
 					saved := append([]int{}, lg.saved...)
 					sort.Ints(saved)
-					c.Eval(1)
+					{
+						res := "err"
+						if err == nil {
+							res = "ok " + strings.Trim(strings.ReplaceAll(fmt.Sprint(saved), " ", ","), "[]")
+							if len(saved) == 0 {
+								res = "ok -"
+							}
+						}
+						c.Case(fmt.Sprintf("impf %s %d %d %d %d", mode[:1], bad, from, to, limit), res)
+					}
 					c.Count("faults", fmt.Sprintf("%s/%s", mode, map[bool]string{true: "success", false: "error"}[err == nil]))
 					if err == nil {
 						full := len(saved) == n
